@@ -96,6 +96,11 @@ func (o *Oracle) captureBootImageExcept(n *Node, skip map[string]bool) bootImage
 		}
 	}
 	im.commit = d.commit
+	for _, i := range idxs {
+		if i <= d.commit && i <= d.last {
+			im.commitCfgIdx = i
+		}
+	}
 	im.voteTerm = d.kvInt["LastVoteTerm"]
 	im.voteCand = string(d.kv["LastVoteCand"])
 	return im
@@ -142,6 +147,12 @@ func (o *Oracle) onBooted(inc *Inc) {
 			inc.tag, latestIdx, idsOf(latest), im.cfgIdx, idsOf(im.cfg))
 		v.Facts["restore_committed_logs"] = fmt.Sprint(w.cfg.StoreFlavour == FlavourCommitTracking && w.cfg.RestoreCommittedLogs)
 		v.Facts["had_snapshot"] = fmt.Sprint(im.snapIdx > 0)
+	}
+	// with RestoreCommittedLogs "the logged entries known to be committed" are replayed at start-up: a configuration
+	// entry among them is the committed configuration the server resumes with (what it writes into its next snapshot)
+	if _, cidx, _, _ := r.VerifConfigurations(); inc.conf.RestoreCommittedLogs && !im.holes && !im.staleLog && im.commitCfgIdx > 0 && cidx < im.commitCfgIdx {
+		w.violate("C10", "C10/committed-configuration-not-restored", "%s: after restart the committed configuration is the one of index %d although the log holds the configuration entry %d at or below the stored commit index %d",
+			inc.tag, cidx, im.commitCfgIdx, im.commit)
 	}
 	if fc := r.GetConfiguration(); fc.Error() == nil && idsOf(fc.Configuration()) != idsOf(latest) {
 		w.violate("C10", "C10/getconfiguration-disagrees", "%s: GetConfiguration {%s} != internal latest {%s}", inc.tag, idsOf(fc.Configuration()), idsOf(latest))
